@@ -52,6 +52,12 @@ Fixpoint serve_all (st : otast) (rs : list request) : otast * list (res (option 
       (st2, a :: l)
   end.
 
+(* the request payload a node sends for block i of firmware (t, v) *)
+Definition req_payload (t v i : Z) : pstr :=
+  match fw_int_to_hex [t; v; i] with Ok p => p | Raise _ => [] end.
+Definition blk_request (t v : Z) (ni : Z * Z) : request :=
+  BlkReq (fst ni) (req_payload t v (snd ni)).
+
 (* node n is past its config request: block requests are answered *)
 Definition is_some {A} (o : option A) : bool := match o with Some _ => true | None => false end.
 Definition active (st : otast) (n : Z) : bool :=
